@@ -79,8 +79,11 @@ class Ctx:
 
 
 def sh(cmd, timeout, cwd=VERIF):
-    p = subprocess.run(cmd, shell=True, cwd=cwd, stdout=subprocess.PIPE, stderr=subprocess.STDOUT,
-                       text=True, timeout=timeout)
+    try:
+        p = subprocess.run(cmd, shell=True, cwd=cwd, stdout=subprocess.PIPE, stderr=subprocess.STDOUT,
+                           text=True, timeout=timeout)
+    except subprocess.TimeoutExpired as e:
+        return 124, f"TIMEOUT after {timeout}s: {cmd[:200]}\n" + ((e.stdout or b"").decode("utf-8", "replace")[-1500:] if isinstance(e.stdout, bytes) else (e.stdout or "")[-1500:])
     return p.returncode, p.stdout
 
 
@@ -116,7 +119,8 @@ def build(prop, info, tier, log):
         obligations.append(("model-extraction-and-driver", driver_ok, out[-1500:] if not driver_ok else ""))
         vfile = info["props"]
         vo = vfile[:-2] + ".vo"
-        rc, out = sh(f"make -s -C coq -f Makefile.coq {vo} -j16", 3000)
+        # a proof script that no longer terminates on a changed definition must not stall the check
+        rc, out = sh(f"timeout -k 10 1200 make -s -C coq -f Makefile.coq {vo} -j16", 1300)
         log.append(out)
         built = rc == 0
         assumptions_txt = ""
